@@ -494,6 +494,38 @@ func (s *suite[T]) run() {
 			if s.call("Flatten", "Flatten("+d+")", [][]T{la, lb}, func() { got = fpgo.Flatten(la, lb, la) }) {
 				s.expect("Flatten", d, got, append(append(append([]T{}, wa...), wb...), wa...))
 			}
+			// the list of lists handed over by spreading is an input too: it still names the same lists (nil
+			// ones included) afterwards, and a second call on it gives the same answer
+			outer := [][]T{la, nil, lb, nil, la}
+			shape := func() string {
+				var p []string
+				for _, in := range outer {
+					p = append(p, snapshot(in))
+				}
+				return strings.Join(p, " ")
+			}
+			before := shape()
+			for _, fn := range []string{"Flatten", "Concat"} {
+				var first, second []T
+				if s.call(fn, fn+"(spread [a nil b nil a]: "+d+")", [][]T{la, lb}, func() {
+					if fn == "Flatten" {
+						first, second = fpgo.Flatten(outer...), fpgo.Flatten(outer...)
+					} else {
+						first, second = fpgo.Concat(lb, outer...), fpgo.Concat(lb, outer...)
+					}
+				}) {
+					w := append(append(append([]T{}, wa...), wb...), wa...)
+					if fn == "Concat" {
+						w = append(append([]T{}, wb...), w...)
+					}
+					s.expect(fn, "spread [a nil b nil a]: "+d, first, w)
+					s.expect(fn, "spread [a nil b nil a], second call: "+d, second, w)
+					if shape() != before {
+						s.bad(fn, "input-modified", "%s(spread list of lists [a nil b nil a]: %s): the caller's list of lists changed from %s to %s", fn, d, before, shape())
+						outer = [][]T{la, nil, lb, nil, la}
+					}
+				}
+			}
 			var bl bool
 			if s.call("IsEqual", "IsEqual("+d+")", [][]T{la, lb}, func() { bl = fpgo.IsEqual(la, lb) }) {
 				if len(wa) > 0 && len(wb) > 0 && bl != seqEq(wa, wb) {
